@@ -42,7 +42,10 @@ RULE = ('cases = calls of the real functions. Exhaustive A: every non-constant s
         'step / single impulse / trend and monotone / one-sided negative / tail-heavy / one spike 1e3..1e12 times the other '
         'steps (first, last or inner sample); array b of 1, 2, 3, 5, 31..33, 63..65, 127..129, 256 entries (unsorted, '
         'descending, repeated), permuted; one record x exponent matrix > 2**22 entries on every eighth shard (thorough: '
-        'every second). distinct = digest(series, container); non-trivial = '
+        'every second). Wave 5: gen.special_scale records (uniformly tiny < 1e-165 / huge > 1e155, 1e-150 ripple vs 1e150 '
+        'spike in one record, ripple on a baseline below float32 resolution, integer counts above 2**24) through the two '
+        'series functions; the power-law functions with record and a_ref scaled together by 1e+-165..1e+-200 (cycle count: '
+        'any b; amplitudes: b in [0.8, 1] so that |p|^(1/b) stays a normal double). distinct = digest(series, container); non-trivial = '
         'non-constant series.')
 ASSUMPTIONS = ['NaN-free real input of any real dtype and container (integers of magnitude <= 2**53 so that the float64 '
                'oracle holds the same numbers); constant series are not judged',
@@ -60,6 +63,8 @@ ASSUMPTIONS = ['NaN-free real input of any real dtype and container (integers of
                'argument purity: every ndarray / list argument is compared bit-for-bit (dtype, shape, bytes) before and '
                'after each monitored call; the oracles read the arguments only after that comparison succeeded',
                'array b for the combined function is documented as float and not judged',
+               'a final movement smaller than 2 ulps of the largest rebased value |x - x[0]| has no decidable direction: '
+               'the pseudo-cyclic sum may then take the value of either direction (extreme dynamic range only)',
                'zero-off-peaks is exact except inside a plateau created by the rounding of x - x[0] (samples closer than 2 '
                'ulps of the largest rebased value) that contains a turning point: valid for any dynamic range',
                'no int()/floor()/ceil() of a float quotient occurs in the six anchored functions (audit item 9 not applicable); '
@@ -79,7 +84,8 @@ _MIN_QUICK = {'amp.length': 57000, 'amp.nondecreasing': 57000, 'amp.scales-linea
               'ncyc.joint-scaling-invariant': 2200, 'ncyc.length': 24000, 'ncyc.nondecreasing': 24000,
               'ncyc==reference': 65000, 'option-form==plain-float': 3400, 'pseudo.length': 110000,
               'pseudo.shift-invariant': 51000, 'pseudo.sum==TV/2+offset/2*sign(last move)': 110000,
-              'pseudo.zero-off-peaks': 110000, 'result.stable-after-next-call': 1800}
+              'pseudo.zero-off-peaks': 110000, 'result.stable-after-next-call': 1800,
+              'special-scale series driven': 230, 'power-law at extreme scale driven': 240}
 # thorough: the enumerations grow 5x (integer variants at every length), the random part 10x (about half of a run)
 _MIN_THOROUGH = {'amp.length': 520000, 'amp.nondecreasing': 520000, 'amp.scales-linearly': 18000,
                  'amp==reference': 1700000, 'args.unchanged': 2600000, 'array-b column==scalar-b': 24000,
@@ -95,7 +101,8 @@ _MIN_THOROUGH = {'amp.length': 520000, 'amp.nondecreasing': 520000, 'amp.scales-
                  'ncyc.joint-scaling-invariant': 22000, 'ncyc.length': 220000, 'ncyc.nondecreasing': 220000,
                  'ncyc==reference': 620000, 'option-form==plain-float': 33000, 'pseudo.length': 840000,
                  'pseudo.shift-invariant': 260000, 'pseudo.sum==TV/2+offset/2*sign(last move)': 840000,
-                 'pseudo.zero-off-peaks': 840000, 'result.stable-after-next-call': 18000}
+                 'pseudo.zero-off-peaks': 840000, 'result.stable-after-next-call': 18000,
+                 'special-scale series driven': 2300, 'power-law at extreme scale driven': 2400}
 MIN_EVALS = {'quick': _MIN_QUICK, 'thorough': _MIN_THOROUGH}
 CTX = None
 
@@ -260,7 +267,13 @@ def check_pseudo(ctx, values, result):
     ctx.check(not off, 'pseudo.zero-off-peaks', W, 'pseudo-cyclic series of %s non-zero off the peaks at %s' % (vals[:12], off[:8]))
     s = math.fsum(g)
     exp = C.pseudo_cyclic_sum(vals)
-    ctx.check(abs(s - exp) <= 1e-9 * tv, 'pseudo.sum==TV/2+offset/2*sign(last move)', W,
+    ok = abs(s - exp) <= 1e-9 * tv
+    if not ok:
+        # knife edge: a final movement below the rounding unit of the rebased record x - x[0] has no decidable direction
+        r = P.runs(vals)
+        if abs(r[-1][1] - r[-2][1]) <= 2 * math.ulp(max(abs(v - vals[0]) for v in vals)):
+            ok = abs(s - (tv - exp)) <= 1e-9 * tv       # the value for the opposite direction of the last move
+    ctx.check(ok, 'pseudo.sum==TV/2+offset/2*sign(last move)', W,
               'sum=%r expected %r (TV=%r, end-start=%r) for %s' % (s, exp, tv, vals[-1] - vals[0], vals[:12]))
 
 
@@ -395,7 +408,7 @@ def check_gm(ctx, values0, values1, n_cyc, b, result):
         for wh in ('first', 'last'):
             a0 = np.array(C.cyc_amp_series(n, [d0[1]], n_cyc, bj, wh))
             a1 = np.array(C.cyc_amp_series(n, [d1[1]], n_cyc, bj, wh))
-            ref = np.sqrt(a0 * a1)
+            ref = np.sqrt(a0) * np.sqrt(a1)      # the geometric mean itself: the product a0*a1 may under/overflow
             ok, idx, e, a = tol.worst(got2[:, j], ref, scale=np.abs(ref), rtol=_rt(bj))
             if first is None:
                 first = (ref, idx, e, a)
@@ -856,7 +869,7 @@ def rel_two(eqsig, ctx, x, y, n_cyc, b):
         _comb(eqsig, ctx, x, y, n_cyc, b)
     if A0 is None or A1 is None or G is None:
         return
-    ref = np.sqrt(A0 * A1)
+    ref = np.sqrt(A0) * np.sqrt(A1)
     rt = max(_rt(v) for v in _bs(b)[0])
     ok = G.shape == ref.shape and tol.close(G, ref, scale=np.abs(ref), rtol=rt)
     ctx.check(ok, 'gm(x,y)==sqrt(amp(x)*amp(y))', lambda: _wit('rel:two', x=x, y=y, n_cyc=n_cyc, b=b, amp0=A0, amp1=A1, gm=G),
@@ -1448,6 +1461,48 @@ def matrix_block(eqsig, ctx, rng):
         ctx.ok('matrix(n*nb>2**22) driven')
 
 
+def extreme_block(eqsig, ctx, rng):
+    """Numerically special but valid scales (every value a normal finite double, products of two samples under/overflow):
+    the peak-only series on gen.special_scale records; the power-law functions with record and reference amplitude
+    scaled together by 1e+-165..1e+-200 (the cycle count depends on ratios only, the amplitudes are linear)."""
+    n = int(rng.choice([3, 8, 50, 200, 300]))
+    w, _cls, _int = random_series(rng, n)
+    if w.min() == w.max():
+        return
+    xs, suffix = gen.special_scale(rng, w)
+    if suffix and np.all(np.isfinite(xs)) and xs.min() != xs.max():
+        cont = xs if rng.random() < 0.8 else xs.tolist()
+        ctx.case(core.digest(xs, 'special'), nontrivial=True, cls='special' + suffix)
+        r0 = _series_fn(eqsig, ctx, DELTA, cont)
+        r1 = _series_fn(eqsig, ctx, PSEUDO, cont)
+        if xs[0] != 0:
+            rel_shift(eqsig, ctx, DELTA, cont, -float(xs[0]))
+            rel_shift(eqsig, ctx, PSEUDO, cont, -float(xs[0]))
+        if r0 is not None and r1 is not None:
+            ctx.ok('special-scale series driven')
+    alpha = float(10.0 ** (float(rng.choice([-1.0, 1.0])) * rng.uniform(165, 200)))
+    wu = w * float(10.0 ** rng.uniform(-1, 1))
+    gmax = float(np.max(np.abs(wu)))
+    b = draw_b(rng)
+    b1 = 1.0 if rng.random() < 0.5 else float(rng.uniform(0.8, 1.0))
+    cut = draw_cut(rng)
+    a_ref = gmax * float(10.0 ** rng.uniform(-1, 1.5))
+    n_cyc = float(10.0 ** rng.uniform(-1, 1.5))
+    xa = wu * alpha
+    ctx.case(core.digest(xa, 'extreme'), nontrivial=True, cls='power-law-extreme-%s' % ('tiny' if alpha < 1 else 'huge'))
+    rel_ncyc_scale(eqsig, ctx, wu, a_ref, b, cut, alpha)
+    rel_ncyc_scale(eqsig, ctx, wu, a_ref, b, 0.0, alpha)
+    rel_inverse(eqsig, ctx, xa, a_ref * alpha, b1, 0.0)
+    rel_inverse(eqsig, ctx, xa, a_ref * alpha, b1, cut)
+    rel_amp_scale(eqsig, ctx, wu, n_cyc, b1, alpha)
+    rel_identical(eqsig, ctx, xa, n_cyc, b1)
+    y, _c, _i = random_series(rng, n)
+    if y.min() != y.max():
+        ya = y * (gmax * float(10.0 ** rng.uniform(-1, 1)) / float(np.max(np.abs(y)))) * alpha
+        rel_two(eqsig, ctx, xa, ya, n_cyc, b1)
+    ctx.ok('power-law at extreme scale driven')
+
+
 def micro_block(eqsig, ctx, rng):
     """Deterministic micro-amplitude records: a unit waveform times 2e-8 / 1e-11 / 1e-12, with and without large offsets."""
     n = int(rng.choice([9, 40, 300]))
@@ -1555,6 +1610,8 @@ def run_shard(ctx):
             micro_block(eqsig, ctx, rng)
         if c % 3 == 1:
             audit_block(eqsig, ctx, x, integer, rng, c // 3)
+        if c % 6 == 2:
+            extreme_block(eqsig, ctx, rng)
     if not quick or ctx.shard % 4 == 0:
         long_block(eqsig, ctx, rng)
     if ctx.shard % 8 == 1 or (not quick and ctx.shard % 2 == 1):
